@@ -172,10 +172,16 @@ func (c *Chain) DumpState(height int64, contracts [][]byte) (*State, error) {
 				var addr common.Address
 				copy(addr[:], ca)
 				cs := ContractSt{Code: hx(sdb.StateDB.GetCode(addr)), Storage: map[string]string{}}
-				_ = sdb.StateDB.ForEachStorage(addr, func(k, v common.Hash) bool {
-					cs.Storage[hx(k[:])] = hx(v[:])
-					return true
-				})
+				// slots are read one by one: the node's trie database keeps no key pre-images, so an
+				// iteration could not name the slots. The scenario contracts use slots 0..15 only.
+				for slot := 0; slot < 16; slot++ {
+					var k common.Hash
+					k[31] = byte(slot)
+					v := sdb.StateDB.GetState(addr, k)
+					if v != (common.Hash{}) {
+						cs.Storage[hx(k[:])] = hx(v[:])
+					}
+				}
 				st.Contracts[hx(ca)] = cs
 			}
 		}
